@@ -81,8 +81,18 @@ func Supervise(m *Monitor, env *Env) *Summary {
 	if timeout <= 0 {
 		timeout = map[string]int{"quick": 120, "thorough": 900}[env.Tier]
 	}
+	first := int64(0)
+	if only := os.Getenv("VERIF_ONLY"); only != "" { // debugging aid: VERIF_ONLY=a:b restricts the run to case indices [a,b)
+		var a, b int64
+		if _, err := fmt.Sscanf(only, "%d:%d", &a, &b); err == nil && a >= 0 && b > a {
+			first = a
+			if b < n {
+				n = b
+			}
+		}
+	}
 	var queue []batch
-	for a := int64(0); a < n; a += bs {
+	for a := first; a < n; a += bs {
 		b := a + bs
 		if b > n {
 			b = n
